@@ -24,6 +24,13 @@ KILL_SINKS = ("getAndTryToKillPids", "Fs::writeKillAt", "Fs::writeFreezeAt", "re
 
 
 def run(ctx):
+    # locals / parameters the rules below refer to by name (a rename makes the analysis 'broken', never a violation)
+    ctx.anchor(ctx.fn1('Oomd::BaseKillPlugin::tryToKillCgroup'), 'nrKilled', 'cgroupPath', 'killUuid', 'target')
+    ctx.anchor(ctx.fn1('Oomd::BaseKillPlugin::tryToLogAndKillCgroup'), 'nrKilled', 'maybeNrKilled', 'cgroupPath', 'actionContext', 'killUuid')
+    ctx.anchor(ctx.fn1('Oomd::BaseKillPlugin::run'), 'ret')
+    ctx.anchor(ctx.fn1('Oomd::BaseKillPlugin::reportKillInitiationToXattr'), 'prevXattr', 'xattr')
+    ctx.anchor(ctx.fn1('Oomd::BaseKillPlugin::reportKillCompletionToXattr'), 'prevXattr', 'numProcsKilled', 'xattr')
+    ctx.anchor(ctx.fn1('Oomd::BaseKillPlugin::reportKillUuidToXattr'), 'killUuid', 'xattr')
     P = ctx.prog
     tkc = ctx.fn1("Oomd::BaseKillPlugin::tryToKillCgroup")
     uu = tkc.calls("reportKillUuidToXattr")
